@@ -28,12 +28,23 @@ def cases(draw, tier):
                                  "dyadic"]))
     spec = draw(gen.table_specs(tier, values=kind, md=True, history=True))
     op = draw(alphabet.op_strategy())
+    if draw(st.sampled_from([False] * 7 + [True])):
+        # the value-reading kernels on a receiver whose other axis was
+        # reordered (unsorted indices survive copy()): in-place and
+        # non-in-place must still agree
+        op = {"op": "filter", "axis": "observation", "mask": draw(ops.MASK),
+              "invert": draw(st.booleans()), "inplace": False,
+              "how": "pred_value"}
+        spec["history"] = spec["history"] + [{
+            "op": "sort", "axis": "sample", "key": draw(ops.KEY)}]
     if op["op"] in ("filter", "transform", "rankdata", "norm") and \
             draw(st.booleans()):
         # kernels that walk the stored entries: let them find the indices a
         # reordering leaves behind
         spec["history"] = spec["history"] + [{
-            "op": "sort", "axis": draw(ops.AX), "key": draw(ops.KEY)}]
+            "op": "sort", "axis": draw(st.sampled_from(
+                ["sample", "sample", "observation"])),
+            "key": draw(ops.KEY)}]
     return {"table": spec, "op": op}
 
 
